@@ -387,6 +387,26 @@ func genDur(r *RNG) time.Duration {
 	return time.Duration(r.Next())
 }
 
+// ---------- fault sites ----------
+// Every place where a fault can be injected (a marshaler's error return, a panicking or
+// nil-receiver Stringer/error, a value encoding/json rejects) asks faultSite. In random mode it is
+// a p% coin; in enumeration mode (C10) the sites of a case are numbered in generation order and
+// exactly the site number enumFaults.at is faulted. The coin is drawn in both modes, so that the
+// rest of the case is identical across the variants.
+type faultEnum struct{ site, at int }
+
+var enumFaults *faultEnum
+
+func faultSite(r *RNG, p int) bool {
+	x := r.Chance(p)
+	if enumFaults == nil {
+		return x
+	}
+	i := enumFaults.site
+	enumFaults.site++
+	return i == enumFaults.at
+}
+
 // ---------- reflected values ----------
 type badJSON struct{}
 
@@ -406,31 +426,41 @@ type reflStruct struct {
 
 func genRefl(r *RNG) (interface{}, SX) {
 	var v interface{}
-	switch r.Intn(12) {
-	case 0:
-		v = nil
-	case 1:
-		v = map[string]int{"b": 2, "a": 1}
-	case 2:
-		v = reflStruct{A: int(genInt(r)), B: string(hostile(r, 8)), D: map[string]string{"<k>": "&v"}}
-	case 3:
-		v = []interface{}{1, "two", nil, 3.5, []int{}, map[string]interface{}{}}
-	case 4:
-		v = string(hostile(r, 10))
-	case 5:
-		v = badJSON{}
-	case 6:
-		v = make(chan int)
-	case 7:
-		v = math.NaN()
-	case 8:
-		v = okJSON{`{"x":[1,2,{"y":null}],"z":"é\n"}`}
-	case 9:
-		v = []byte(hostile(r, 6))
-	case 10:
-		v = genInt(r)
-	default:
-		v = struct{ X, Y interface{} }{genFloat(r) * 0, true}
+	k := r.Intn(9)
+	ek := r.Intn(3)
+	hs := hostile(r, 10)
+	iv := genInt(r)
+	fv := genFloat(r)
+	if faultSite(r, 25) {
+		switch ek {
+		case 0:
+			v = badJSON{}
+		case 1:
+			v = make(chan int)
+		default:
+			v = math.NaN()
+		}
+	} else {
+		switch k {
+		case 0:
+			v = nil
+		case 1:
+			v = map[string]int{"b": 2, "a": 1}
+		case 2:
+			v = reflStruct{A: int(iv), B: string(hs), D: map[string]string{"<k>": "&v"}}
+		case 3:
+			v = []interface{}{1, "two", nil, 3.5, []int{}, map[string]interface{}{}}
+		case 4:
+			v = string(hs)
+		case 5:
+			v = okJSON{`{"x":[1,2,{"y":null}],"z":"é\n"}`}
+		case 6:
+			v = []byte(hs)
+		case 7:
+			v = iv
+		default:
+			v = struct{ X, Y interface{} }{fv * 0, true}
+		}
 	}
 	if v == nil {
 		return nil, L(I(0))
@@ -477,10 +507,12 @@ func (p *ptrStringer) String() string { return p.s } // nil receiver dereference
 
 func genStringer(r *RNG) (fmt.Stringer, SX) {
 	s := hostile(r, 8)
-	switch r.Intn(4) {
-	case 0:
+	fp := faultSite(r, 25)
+	fn := faultSite(r, 25)
+	switch {
+	case fp:
 		return scriptStringer{s: string(s), panic: true}, L(I(1), B(s))
-	case 1:
+	case fn:
 		return (*ptrStringer)(nil), L(I(2))
 	default:
 		return scriptStringer{s: string(s)}, L(I(0), B(s))
@@ -529,21 +561,21 @@ func (e groupFmtErr) Format(f fmt.State, verb rune) { f.Write([]byte(e.v)) }
 func genErr(r *RNG, depth int) (error, SX) {
 	s := hostile(r, 8)
 	none := L()
-	x := r.Intn(100)
+	x := r.Intn(82)
+	fp := faultSite(r, 12)
+	fn := faultSite(r, 8)
+	var e error
+	var ex SX
 	switch {
 	case x < 30:
-		return plainErr{string(s)}, L(L(I(0), B(s)), none, none)
-	case x < 40:
-		return panicErr{string(s)}, L(L(I(1), B(s)), none, none)
-	case x < 48:
-		return (*ptrErr)(nil), L(L(I(2)), none, none)
-	case x < 65 || depth <= 0:
-		e := fmtErr{string(s), string(s)}
+		e, ex = plainErr{string(s)}, L(L(I(0), B(s)), none, none)
+	case x < 47 || depth <= 0:
+		fe := fmtErr{string(s), string(s)}
 		if r.Chance(70) {
-			e.v = string(hostile(r, 12))
+			fe.v = string(hostile(r, 12))
 		}
-		verbose := fmt.Sprintf("%+v", e)
-		return e, L(L(I(0), B(s)), L(Str(verbose)), none)
+		verbose := fmt.Sprintf("%+v", fe)
+		e, ex = fe, L(L(I(0), B(s)), L(Str(verbose)), none)
 	default:
 		n := r.Intn(4)
 		var causes []error
@@ -561,10 +593,18 @@ func genErr(r *RNG, depth int) (error, SX) {
 		g := groupErr{string(s), causes}
 		if r.Chance(20) {
 			gf := groupFmtErr{g, "verbose!"}
-			return gf, L(L(I(0), B(s)), L(Str(fmt.Sprintf("%+v", gf))), L(L(cx...)))
+			e, ex = gf, L(L(I(0), B(s)), L(Str(fmt.Sprintf("%+v", gf))), L(L(cx...)))
+		} else {
+			e, ex = g, L(L(I(0), B(s)), none, L(L(cx...)))
 		}
-		return g, L(L(I(0), B(s)), none, L(L(cx...)))
 	}
+	switch {
+	case fp:
+		return panicErr{string(s)}, L(L(I(1), B(s)), none, none)
+	case fn:
+		return (*ptrErr)(nil), L(L(I(2)), none, none)
+	}
+	return e, ex
 }
 
 // ---------- fields ----------
@@ -577,8 +617,8 @@ type genState struct {
 }
 
 func optMsg(r *RNG, p int) (error, SX) {
-	if r.Chance(p) {
-		m := hostile(r, 8)
+	m := hostile(r, 8)
+	if faultSite(r, p) {
 		return errors.New(string(m)), L(B(m))
 	}
 	return nil, L()
